@@ -322,7 +322,8 @@ class Builder:
             size *= hi - lo + 1
         cid = self.new_cid()
         mat, rho = self.material()
-        homogeneous = d(st.integers(0, 3)) == 0 or force.get('homogeneous')
+        homogeneous = d(st.integers(0, 3)) == 0 or force.get('homogeneous') \
+            or bool(self.opts.get('homogeneous'))
         if force.get('tr'):
             tr = self.transform_ref(min(pitches), allow_none=False,
                                     rot_classes=('generic', 'perm', 'flip',
